@@ -581,8 +581,86 @@ def check_defaults(inp):
     return out[:1]
 
 
+def check_repeat(case):
+    """the coefficients are functions of their arguments: the same object asked twice (reflectivity, reflectivity, emissivity / transmission,
+    reflectivity again), a fresh object, and the plain Fresnel matrices asked right afterwards with the same arguments all give what the
+    first evaluation / the Fresnel formulas give - nothing computed for one request leaks into the next"""
+    module = case["module"]
+    side = case["side"]
+    key0 = f"{side}.{module}" if module not in ("soil_qnh", "coherent_flat") else module
+    name, pnames, fixed = REG[(side, module)]
+    e1, e2 = complex(*case["e1"]), complex(*case["e2"])
+    kw = dict(fixed); kw.update(with_resolved(case["kw"]))
+    slab = (complex(*case["slab"][0]), case["slab"][1]) if "slab" in case else None
+    npol = case["npol"]
+
+    def rows(fn):
+        with contextlib.redirect_stdout(io.StringIO()):
+            m = fn()
+        if getattr(m, "mtype", None) == "0":
+            return np.zeros(npol)
+        return np.array(np.asarray(m.values, dtype=float)[:, 0])
+    try:
+        obj = make_obj(side, module, kw, e2, slab)
+        sp, tr = methods(side, obj, case["f"], e1, e2, case["mu"], npol)
+        seq = [rows(sp), rows(sp), rows(tr), rows(tr), rows(sp)]
+        from smrt.core.fresnel import fresnel_reflection_matrix, fresnel_transmission_matrix
+        mu = np.array([case["mu"]])
+        flat = [rows(lambda: fresnel_reflection_matrix(e1, e2, mu, npol)), rows(lambda: fresnel_transmission_matrix(e1, e2, mu, npol))]
+        obj2 = make_obj(side, module, kw, e2, slab)
+        sp2, tr2 = methods(side, obj2, case["f"], e1, e2, case["mu"], npol)
+        fresh = [rows(sp2), rows(tr2)]
+    except Exception as e:  # noqa
+        return []
+    out = []
+    same = lambda a, b: a.shape == b.shape and np.allclose(a, b, rtol=1e-13, atol=1e-15, equal_nan=True)
+    if not (same(seq[0], seq[1]) and same(seq[0], seq[4]) and same(seq[2], seq[3])):
+        out.append((f"{key0}:repeat", f"asked twice, the same object answers specular {seq[0].tolist()} then {seq[1].tolist()} then {seq[4].tolist()}; "
+                    f"emissivity/transmission {seq[2].tolist()} then {seq[3].tolist()}", "equal"))
+    elif not (same(seq[0], fresh[0]) and same(seq[2], fresh[1])):
+        out.append((f"{key0}:repeat", f"a fresh object answers {fresh[0].tolist()} / {fresh[1].tolist()} after another one answered "
+                    f"{seq[0].tolist()} / {seq[2].tolist()}", "equal"))
+    R, T = RT(e1, e2, case["mu"], npol)
+    if np.max(np.abs(flat[0][:2] - R[:2])) > 1e-12 or np.max(np.abs(flat[1][:2] - T[:2])) > 1e-12:
+        out.append((f"{key0}:repeat", f"the Fresnel matrices asked right after this class with the same arguments: R={flat[0].tolist()} T={flat[1].tolist()}",
+                    f"R={R.tolist()} T={T.tolist()}"))
+    return out
+
+
+SOIL_KW = {"flat": {}, "soil_wegmuller": {"roughness_rms": 0.01}, "soil_qnh": {"H": 0.5, "Q": 0.1, "N": 1.0}, "rough_choudhury79": {"roughness_rms": 0.0005},
+           "iem_fung92": {"roughness_rms": 0.002, "corr_length": 0.05}}
+
+
+def check_frequency_sequence(inp):
+    """one substrate object with a frequency-dependent permittivity model evaluated at several frequencies in a row answers, at each, what a
+    fresh object answers at that frequency"""
+    from smrt import make_soil
+    module, model = inp["module"], inp["model"]
+    mk = lambda: make_soil(module, model, inp["T"], moisture=inp["moisture"], sand=0.4, clay=0.3, drymatter=1100., **SOIL_KW[module])
+    mu = np.array([inp["mu"]])
+    e1 = complex(*inp["e1"])
+
+    def both(o, f):
+        with contextlib.redirect_stdout(io.StringIO()):
+            return (np.array(np.asarray(o.specular_reflection_matrix(f, e1, mu, 2).values, dtype=float)[:, 0]),
+                    np.array(np.asarray(o.emissivity_matrix(f, e1, mu, 2).values, dtype=float)[:, 0]))
+    try:
+        one = mk()
+        got = [both(one, f) for f in inp["freqs"]]
+        want = [both(mk(), f) for f in inp["freqs"]]
+    except Exception as e:  # noqa
+        if refusal(e):
+            return []
+        raise
+    for f, g, w in zip(inp["freqs"], got, want):
+        if not (np.allclose(g[0], w[0], rtol=1e-12, atol=1e-14) and np.allclose(g[1], w[1], rtol=1e-12, atol=1e-14)):
+            return [(f"substrate.{module}:frequency-sequence", f"{module} on a {model} soil evaluated at {inp['freqs']} in a row: at {f:g} Hz it answers "
+                     f"r={g[0].tolist()} e={g[1].tolist()}", f"r={w[0].tolist()} e={w[1].tolist()} (a fresh object at that frequency)")]
+    return []
+
+
 CHECKS = {"fresnel": check_fresnel, "class": check_class, "smooth": check_smooth, "adapter": check_adapter, "defaults": check_defaults,
-          "go": check_go_backscatter}
+          "go": check_go_backscatter, "repeat": check_repeat, "freqseq": check_frequency_sequence}
 
 
 def run_check(inp):
@@ -637,11 +715,18 @@ def oracle(ctx, hints, effort):
                 findings.setdefault(f"{side}.{module}:unregistered", Finding(f"{side}.{module}:unregistered", "class unknown to the C12 harness",
                                     {"kind": "defaults", "side": side, "module": module}, "unregistered", "registered"))
                 continue
-            for _ in range(200 if big else 25):
+            for j_ in range(200 if big else 25):
                 case = sample_case(rng, side, module)
                 if REG[(side, module)][0] == "nullspec":
                     continue                                # 1 - numerical integral: slow, and bounded by construction only approximately
                 record(case)
+                if j_ % 5 == 0 and module != "coherent_flat":
+                    record(dict(case, kind="repeat"))
+            if side == "substrate" and module in SOIL_KW:
+                for model in ("dobson85", "hut_epss", "montpetit2008"):
+                    record({"kind": "freqseq", "module": module, "model": model, "T": 275.0 if model != "montpetit2008" else 260.0,
+                            "moisture": round(float(rng.uniform(0.1, 0.35)), 3), "mu": round(float(rng.uniform(0.4, 0.99)), 3),
+                            "e1": [round(float(rng.uniform(1.0, 1.8)), 3), 0.0], "freqs": [1.4e9, 10.65e9, 37e9][::(1 if rng.random() < 0.5 else -1)]})
             if REG[(side, module)][0] == "nullspec":
                 for j in range(16 if big else 6):
                     case = sample_case(rng, side, module)
